@@ -10,6 +10,7 @@ import time
 import traceback
 
 VERIF = os.path.dirname(os.path.dirname(os.path.abspath(__file__)))
+EVID = os.environ.get('N2K_EVIDENCE_DIR') or os.path.join(VERIF, 'evidence')   # developer tools redirect this; registered commands never set it
 KNOWN_FILE = os.path.join(VERIF, 'KNOWN_FINDINGS.txt')
 KNOWN_SITES_DIR = os.path.join(VERIF, 'known_sites')
 
@@ -135,7 +136,7 @@ class Check:
             seen.add(k)
             n = sum(1 for p, _ in known_hit if (f"{p.rule}::{p.group}" if (p.group and p.key() not in known) else p.key()) == k)
             out.append(f"KNOWN-FINDING: property={self.pid} rule={o.rule} instance={k.split('::', 1)[1]}" + (f" sites={n}" if n > 1 else '') + f" :: {text}")
-        replay_dir = os.path.join(VERIF, 'evidence', 'replay')
+        replay_dir = os.path.join(EVID, 'replay')
         os.makedirs(replay_dir, exist_ok=True)
         # remove stale replay files of this property
         for fn in os.listdir(replay_dir):
@@ -143,21 +144,20 @@ class Check:
                 try: os.remove(os.path.join(replay_dir, fn))
                 except OSError: pass
         status = 0
-        if self.errors:
-            for e in self.errors:
-                out.append(f"ANALYSIS-ERROR property={self.pid} {e}")
-            for o in reported:
-                out.append(f"UNCONFIRMED (analysis incomplete) {o.file}:{o.line}: [{o.rule}] {o.instance}: {o.detail or ''} expected={_short(o.expected)} found={_short(o.found)}")
-            status = 2
-        elif reported:
+        for e in self.errors:
+            out.append(f"ANALYSIS-ERROR property={self.pid} {e}")
+        if reported:
+            # a recognised violation stands even when another rule could not finish its analysis
             for i, o in enumerate(reported):
                 path = os.path.join(replay_dir, f"{self.pid}-{i}.json")
                 with open(path, 'w') as f:
                     json.dump({'property': self.pid, 'obligation': o.as_dict(), 'repo': self.program.repo if self.program else None,
-                               'how': f"python3 -m n2kstatic replay {path}"}, f, indent=1, default=str)
+                               'how': f"./check-replay {path}"}, f, indent=1, default=str)
                 out.append(f"{o.file}:{o.line}: [{o.rule}] {o.instance}: {o.detail or ''} expected={_short(o.expected)} found={_short(o.found)}")
                 out.append(f"VIOLATION property={self.pid} replay={path}")
             status = 1
+        elif self.errors:
+            status = 2
         wall = time.time() - self.t0
         # ---- evidence
         n = len(self.obs)
@@ -203,8 +203,8 @@ class Check:
             'coverage': cov, 'assumptions': assumptions, 'wall_s': round(wall, 3),
             'violations': len(reported),
         }
-        os.makedirs(os.path.join(VERIF, 'evidence'), exist_ok=True)
-        with open(os.path.join(VERIF, 'evidence', f"{self.pid}.json"), 'w') as f:
+        os.makedirs(EVID, exist_ok=True)
+        with open(os.path.join(EVID, f"{self.pid}.json"), 'w') as f:
             json.dump(ev, f, indent=1, default=str)
         summary = f"{self.pid} [{self.tier}] obligations={n} discharged={n - len(viol)} known={len(known_hit)} violations={len(reported)} errors={len(self.errors)} wall={wall:.2f}s"
         out.append(summary)
@@ -222,6 +222,6 @@ def write_error_evidence(pid, tier, seed, level, msg):
                        'samples': [{'error': msg}], 'obligations': 0, 'discharged': 0, 'checker_cmd': f'./check {pid} {tier}',
                        'trusted_base': [], 'programs': 0, 'disagreements_checked': 0},
           'assumptions': [], 'wall_s': 0.0, 'violations': 0}
-    os.makedirs(os.path.join(VERIF, 'evidence'), exist_ok=True)
-    with open(os.path.join(VERIF, 'evidence', f"{pid}.json"), 'w') as f:
+    os.makedirs(EVID, exist_ok=True)
+    with open(os.path.join(EVID, f"{pid}.json"), 'w') as f:
         json.dump(ev, f, indent=1)
